@@ -11,7 +11,9 @@ oracle:  model-free — every project is compiled whole and separately in every 
          ways must behave alike under Go.Sem, the linked Cores alike under Sem, Go validity (Go.Check) must agree, and
          check_package / build_package must write the same interface bytes, and the exports of every built package read
          back from the .interface JSON text must equal what was written (Debug rendering of exports / to_genv() /
-         hir_interface, compact JSON, recomputed hash)
+         hir_interface, compact JSON, recomputed hash); check_package and build_package are compared on every package
+         of every project, rejected ones included: same stage and same diagnostics when both reject, and check may
+         accept what build rejects only when all of build's diagnostics come from match compilation
 """
 import collections, json, os, re, subprocess
 import vlib
@@ -68,6 +70,36 @@ def diag_class(msg):
     return m[:90]
 
 
+def match_compilation_messages(ctx):
+    """the shapes of the diagnostics match compilation can raise, read off compile_match.rs on every run: the format
+    strings next to each `Stage::other("compile")`; `{…}` holes become wildcards"""
+    path = os.path.join(os.environ.get("GV_REPO", "/repo"), "crates/compiler/src/compile_match.rs")
+    try:
+        lines = open(path).read().split("\n")
+    except OSError as e:
+        ctx.broken_ties.append(("compile_match.rs", str(e)))
+        return []
+    shapes = []
+    for i, l in enumerate(lines):
+        if 'Stage::other("compile")' not in l:
+            continue
+        window = "\n".join(lines[max(0, i - 12):i + 5])
+        for m in re.finditer(r'format!\(\s*"((?:[^"\\]|\\.)*)"', window):
+            rx = "^" + ".*".join(re.escape(part) for part in re.split(r"\{[^}]*\}", m.group(1))) + "$"
+            if rx not in shapes:
+                shapes.append(rx)
+    if len(shapes) < 3:
+        ctx.broken_ties.append(("compile_match.rs", f"expected at least 3 diagnostics of stage compile, found {shapes}"))
+    return shapes
+
+
+def only_match_compilation(outcome, shapes):
+    """`err:compile:<messages>` all of whose messages are diagnostics of match compilation (and not the errors stage
+    `compile` also carries: cycle, missing or stale interface, package mismatch - `check` raises those as `build` does)"""
+    f = outcome.split(":", 2)
+    return len(f) == 3 and f[0] == "err" and f[1] == "compile" and all(any(re.match(rx, m, re.S) for rx in shapes) for m in f[2].split(" | "))
+
+
 def run(ctx):
     ctx.extract()
     have_props = os.path.exists(os.path.join(vlib.LEAN, "GomlVerif/Props/C14.lean"))
@@ -87,6 +119,9 @@ def run(ctx):
     order_hist = collections.Counter()
     samples, distinct = [], set()
     equiv_lines, equiv_meta = [], {}
+    n_iface_compile_only = n_iface_both_err = 0
+    mc_shapes = match_compilation_messages(ctx)
+    iface_verdicts, iface_err_stage, whole_err_stage = collections.Counter(), collections.Counter(), collections.Counter()
 
     for pid, d in progs.items():
         if "whole" not in d:
@@ -95,7 +130,7 @@ def run(ctx):
         proj = d.get("project", ["?", "", "", "", ""])
         kinds[proj[0]] += 1
         for t in (proj[1].split(",") if len(proj) > 1 and proj[1] else []):
-            if proj[0] in ("template", "random-kinds", "import-rule", "early-diagnostic", "lookup-visibility", "c16-world"):
+            if proj[0] in ("template", "random-kinds", "import-rule", "early-diagnostic", "late-diagnostic", "entry-point", "lookup-visibility", "c16-world"):
                 tpl_tags[t] += 1
             if t.startswith("shape=") or t in ("generics", "ill-typed", "multi-file"):
                 tags[t] += 1
@@ -137,8 +172,36 @@ def run(ctx):
                 agree = False
                 ctx.report({"oracle": "acceptance", "whole": f"err:{w[1]}", "separate": f"err:{s[3]}"},
                            f"rejected in different stages: whole {w[1]}, separate {s[3]} ({s[4]}) in order {order}", payload)
+        # ---- check vs build, every package of every order, whether or not the project is accepted: `check_package` and
+        #      `build_package` run the same front end on the same files against the same interfaces, so they accept the
+        #      same packages with the same interface bytes and reject the same packages in the same stage with the same
+        #      diagnostics; the one stage `build` runs beyond `check` is match compilation (stage compile)
+        payload["check_vs_build"] = [r[:3] + [vlib.unesc(x)[:300] for x in r[3:5]] for r in d["iface"] if r[2] != "same"][:6]
+        for row in d["iface"]:
+            n_iface += 1
+            verdict = row[2]
+            chk, bld = (vlib.unesc(row[3]), vlib.unesc(row[4])) if len(row) > 4 else ("?", "?")
+            cst, bst = (x if x in ("ok", "?") else ":".join(x.split(":")[:2]) for x in (chk, bld))
+            iface_verdicts[f"{verdict} (whole program {'accepted' if w[0] == 'ok' else 'rejected'})"] += 1
+            if len(row) <= 4:
+                ctx.broken_ties.append(("harness", f"{pid}: IFACE row without the outcomes of check and build"))
+            elif verdict == "same":
+                n_iface_same += 1
+            elif chk == "ok" and only_match_compilation(bld, mc_shapes):
+                # accepted by the typer, rejected by match compilation, which `check` does not run; the whole-program
+                # path must then reject in stage compile as well (acceptance oracle above)
+                n_iface_compile_only += 1
+            elif chk != "ok" and bld != "ok" and cst == bst and sorted(map(diag_class, chk.split(":", 2)[2].split(" | "))) == sorted(map(diag_class, bld.split(":", 2)[2].split(" | "))):
+                n_iface_both_err += 1
+                iface_err_stage[cst.split(":")[1]] += 1
+            else:
+                kind = (verdict if verdict in ("differ", "check-ok-build-err", "check-err-build-ok", "both-err-different-stage")
+                        else "check-ok-build-err" if chk == "ok" else "both-err-different-diagnostics")
+                ctx.report({"oracle": "check-vs-build", "kind": kind, "check": cst, "build": bst},
+                           f"check_package and build_package disagree on package {row[1]} (order #{row[0]}): {kind}: check -> {chk[:160]}; build -> {bld[:160]}", payload)
         if w[0] == "err":
             n_both_err += agree
+            whole_err_stage[w[1]] += 1
             continue
         n_both_ok += agree
         # ---- behaviour
@@ -189,15 +252,6 @@ def run(ctx):
         if len(samples) < 3 and len(d["sep"]) > 1 and "generics" in (proj[1] if len(proj) > 1 else ""):
             samples.append({"id": pid, "tags": proj[1], "orders": [s[1] for s in d["sep"]], "whole_stdout": vlib.unesc(wg[1])[:200],
                             "go_text_equal_to_whole": [s[4] for s in d["sep"] if s[2] == "ok"]})
-        # ---- check vs build
-        for row in d["iface"]:
-            n_iface += 1
-            if row[2] in ("same", "both-err"):
-                n_iface_same += 1
-            else:
-                ctx.report({"oracle": "check-vs-build", "kind": row[2]},
-                           f"check_package and build_package disagree on package {row[1]} (order #{row[0]}): {row[2]}", payload)
-
     # ---- exports -> interface JSON -> exports is the identity on what an importer's typer reads (every built package,
     #      accepted or not as a whole project)
     n_rt = n_rt_same = n_rt_nonempty = 0
@@ -283,12 +337,13 @@ def run(ctx):
         ctx.notes.append(f"{sum(outside.values())} of {n_eq} Core pairs are outside the verified fragment (validate rejects, the structural comparison accepts): {dict(outside)}")
     ctx.violations.sort(key=lambda v: len(v[2].get("src") or "x" * 10**6))
     if ctx.replay:
-        try:
-            want = json.load(open(ctx.replay)).get("signature")
+        # vlib.Ctx has read the signature (and cleared replays/, where the file usually lives) before the run
+        want = ctx.replay_signature
+        if want is None:
+            ctx.broken_ties.append(("replay file", f"{ctx.replay}: not readable or without a signature"))
+        else:
             ctx.violations = [v for v in ctx.violations if v[0] == want]
             ctx.notes.append(f"replay: the whole seeded run is repeated; only violations with signature {want} are reported")
-        except Exception as e:
-            ctx.broken_ties.append(("replay file", str(e)))
     cov = {
         "evaluations": n_orders, "distinct_nontrivial": len(distinct) + n_both_err,
         "rule": "one evaluation = one project built separately in one topological order (check + build of every package, artefacts written to and "
@@ -298,7 +353,11 @@ def run(ctx):
         "accepted_both_ways": n_both_ok, "rejected_both_ways_same_stage": n_both_err,
         "behaviour_comparisons(distinct separate Go per project)": {"checked": n_beh, "same_as_whole(Go.Sem, Sem, Go.Check)": n_beh_ok},
         "go_text": {"separate_equal_to_whole": n_text_equal, "differs(only order/temporaries, see tie)": n_text_differs},
-        "check_vs_build_interface": {"packages_checked": n_iface, "same_bytes": n_iface_same},
+        "check_vs_build_interface": {"packages_checked": n_iface, "same_bytes": n_iface_same,
+                                     "rejected_by_both_same_stage_same_diagnostics": n_iface_both_err, "of_which_by_stage": dict(iface_err_stage),
+                                     "accepted_by_check_rejected_by_match_compilation_in_build": n_iface_compile_only,
+                                     "verdicts": dict(iface_verdicts)},
+        "whole_program_rejections_by_stage": dict(whole_err_stage),
         "tie_link_environment": {"pairs(project x link order, <= 2 per project)": n_env, "model_agrees_with_both_ways_on_every_lookup": n_env_ok,
                                  "of_which_same_iteration_order_as_the_separate_link": n_env_same_order,
                                  "keys_exported_by_the_packages_themselves(builtins not counted)_per_project": dict(env_keys)},
@@ -326,6 +385,13 @@ def run(ctx):
         "only receives from another package (call result, let, closure parameter) x owner of the type imported by the user's file / only by a sibling file / reachable "
         "only through an import of an import x impl beside the type / beside the trait x user = Main / a library; nothing is expected of a project except that both "
         "pipelines agree (isolation itself is C16's business); c16-world: the first 60 (thorough 600) C16 worlds with intact directories and at least one placement",
+        "late-diagnostic catalogue (harness/src/c14.rs::late_diagnostic_projects): every diagnostic match compilation can raise from source text (integer-literal "
+        "match without a catch-all arm on each integer type, the literal nested in a variant payload / tuple / struct pattern, the match inside a closure / let in an "
+        "arm / generic fn / inherent method / trait impl; an inherent or generic inherent method used as a value or argument; the matched value or the method owned by "
+        "an imported package) + 3 accepted controls x entry file / sibling of it / library file / sibling library file; entry-point catalogue (entry_point_projects): "
+        "main in the entry file / a sibling file / only a library / only as an inherent method / only as an extern / nowhere, main with a parameter / result / type "
+        "parameter; check-vs-build: diagnostics are compared as sorted lists of message classes (type-variable numbers and paths normalised), the diagnostics "
+        "excused as 'match compilation' are the format strings next to Stage::other(\"compile\") in compile_match.rs, read on every run",
     ]
     tb = ["Lean 4 kernel", "axioms: " + ",".join(ctx.proof["axioms"] or ["none"]), "Sem / Go.Sem / Go.Check", "harness/src/c14.rs, c13.rs (project generator), dump.rs, godump.rs",
           "tools/props/c14.py"]
